@@ -112,7 +112,14 @@ class _Stats:
 
 def evaluate(mod, case, stats, known, keep_sample=True):
     """Run one case; returns the list of violations that are not listed known findings."""
+    hung_before = _hung_total()
     res = mod.run_case(case)
+    if _hung_total() != hung_before:
+        # the wall-clock hang protection fired (a process did not reach a scheduling point for 90 s, e.g. on an
+        # overloaded machine): whatever the oracle saw afterwards is a harness artefact -- inconclusive, never a verdict
+        res["violations"] = []
+        res["inconclusive"] = "hang-protection"
+        res["nontrivial"] = False
     stats.add(case, res, keep_sample)
     fresh = []
     for v in res.get("violations", ()):
@@ -123,6 +130,11 @@ def evaluate(mod, case, stats, known, keep_sample=True):
         else:
             fresh.append(v)
     return res, fresh
+
+
+def _hung_total():
+    w = sys.modules.get("jv.world")
+    return w.HUNG_TOTAL[0] if w is not None else 0
 
 
 def sig_class(sig):
@@ -251,6 +263,22 @@ def hypothesis_phase(mod, tier, hseed, n_examples, stats, known):
     except StopShrink:
         if state["best"] is not None:
             state["best"]["phase"] = "hypothesis(shrink capped)"
+    except Exception as e:  # noqa: BLE001
+        if type(e).__name__ in ("Flaky", "FlakyFailure", "FlakyReplay"):
+            # the failure did not reproduce on the immediate re-run of the same case: not a verdict. The case is kept
+            # (replays/inconclusive-*.json) and counted; a check must never raise an alarm it cannot reproduce.
+            stats.inconclusive["flaky-not-reproducible"] = stats.inconclusive.get("flaky-not-reproducible", 0) + 1
+            if state["best"] is not None:
+                stats.inc_samples.setdefault("flaky-not-reproducible", state["best"]["case"])
+            return None
+        raise
+    if state["best"] is not None:
+        # confirm outside Hypothesis: the reported case must fail again when run on its own
+        res2, fresh2 = evaluate(mod, state["best"]["case"], stats, known, keep_sample=False)
+        if not [v for v in fresh2 if sig_class(v["sig"]) == state["target"]]:
+            stats.inconclusive["flaky-not-reproducible"] = stats.inconclusive.get("flaky-not-reproducible", 0) + 1
+            stats.inc_samples.setdefault("flaky-not-reproducible", state["best"]["case"])
+            return None
     return state["best"]
 
 
